@@ -256,3 +256,45 @@ mut("c09-newer-version-keyerror", "C09", EZ, "        for cfg in DEFAULT_CONFIG[
 mut("c09-unknown-version-falls-back-to-v8", "C09", EZ, "            version = EZSP_LATEST\n", "            version = 8\n")
 mut("c09-version-kept-as-latest", "C09", EZ, "        self._ezsp_version = version\n\n        if version not in self._BY_VERSION:", "        self._ezsp_version = min(version, EZSP_LATEST)\n\n        if version not in self._BY_VERSION:")
 mut("c09-socket-reset-seen-still-resets-without-start", "C09", EZ, "                LOGGER.debug(\"Received a reset on startup, not resetting again\")\n                self.start_ezsp()", "                LOGGER.debug(\"Received a reset on startup, not resetting again\")")
+
+# ---- C12 -------------------------------------------------------------------------------
+mut("c12-pending-key-without-destination", "C12", APP,
+    "            pending_tag = (packet.dst.address, message_tag)\n", "            pending_tag = (0, message_tag)\n", count=1)
+mut("c12-confirmation-key-tag-only", "C12", APP,
+    "            pending_tag = (destination, message_tag)\n            request = self._pending[pending_tag]",
+    "            pending_tag = next((k for k in self._pending if k[1] == message_tag), (destination, message_tag))\n            request = self._pending[pending_tag]")
+mut("c12-req-lock-removed", "C12", APP,
+    "                    async with self._req_lock:\n", "                    if True:\n")
+mut("c12-one-retry-less", "C12", APP, "RETRY_DELAYS = [0.5, 1.0, 1.5]", "RETRY_DELAYS = [0.5, 1.0]")
+mut("c12-failed-confirmation-ignored", "C12", APP,
+    "                if t.sl_Status.from_ember_status(send_status) != t.sl_Status.OK:\n                    raise zigpy.exceptions.DeliveryError(",
+    "                if False:\n                    raise zigpy.exceptions.DeliveryError(")
+mut("c12-busy-not-retried-transmit-busy", "C12", APP,
+    "                        t.sl_Status.TRANSMIT_BUSY,\n", "")
+mut("c12-refusal-treated-as-busy", "C12", APP,
+    "                    elif status not in (\n                        t.sl_Status.ZIGBEE_MAX_MESSAGE_LIMIT_REACHED,",
+    "                    elif status not in (\n                        t.sl_Status.INVALID_STATE,\n                        t.sl_Status.ZIGBEE_MAX_MESSAGE_LIMIT_REACHED,")
+mut("c12-multicast-waits-for-confirmation", "C12", APP,
+    "                if packet.dst.addr_mode != zigpy.types.AddrMode.NWK:\n                    return\n", "")
+mut("c12-v14-status-order", "C12", APP,
+    "                (\n                    status,\n                    message_type,\n                    destination,\n                    aps_frame,\n                    message_tag,\n                    message,\n                ) = args\n            else:",
+    "                (\n                    message_type,\n                    status,\n                    destination,\n                    aps_frame,\n                    message_tag,\n                    message,\n                ) = args\n            else:")
+mut("c12-no-sleep-between-retries", "C12", APP, "                            await asyncio.sleep(retry_delay)\n", "                            await asyncio.sleep(0)\n")
+
+# ---- C13 -------------------------------------------------------------------------------
+mut("c13-v14-lqi-rssi-swapped", "C13", APP,
+    "                    address_index,\n                    lqi,\n                    rssi,\n                    _timestamp,", "                    address_index,\n                    rssi,\n                    lqi,\n                    _timestamp,")
+mut("c13-deny-join-treated-as-join", "C13", APP,
+    "        if decision == t.EmberJoinDecision.DENY_JOIN:\n            # no point in handling the join if it was denied\n            return\n", "")
+mut("c13-multicast-dst-uses-own-nwk", "C13", APP,
+    "                addr_mode=zigpy.types.AddrMode.Group, address=aps_frame.groupId", "                addr_mode=zigpy.types.AddrMode.Group, address=self.state.node_info.nwk")
+mut("c13-tsn-from-binding-index", "C13", APP, "                tsn=aps_frame.sequence,", "                tsn=binding_index,")
+mut("c13-endpoints-swapped", "C13", APP,
+    "                src_ep=aps_frame.sourceEndpoint,", "                src_ep=aps_frame.destinationEndpoint,")
+mut("c13-reply-type-accepted", "C13", APP,
+    "        elif message_type == t.EmberIncomingMessageType.INCOMING_UNICAST:", "        elif message_type in (t.EmberIncomingMessageType.INCOMING_UNICAST, t.EmberIncomingMessageType.INCOMING_UNICAST_REPLY):")
+mut("c13-leave-after-deny-check", "C13", APP,
+    "        if device_update_status == t.EmberDeviceUpdate.DEVICE_LEFT:\n            self.handle_leave(nwk, ieee)\n            return\n",
+    "        if device_update_status == t.EmberDeviceUpdate.DEVICE_LEFT and decision != t.EmberJoinDecision.DENY_JOIN:\n            self.handle_leave(nwk, ieee)\n            return\n")
+mut("c13-v14-schema-field-order", "C13", "bellows/ezsp/v14/commands.py",
+    "\"lqi\": t.uint8_t,\n            \"rssi\": t.int8s,", "\"rssi\": t.int8s,\n            \"lqi\": t.uint8_t,")
